@@ -60,37 +60,61 @@ func c17Filter(spec string) func(string) bool {
 	return func(string) bool { return true }
 }
 
+// c17Barcodes runs one barcode call: args = length n nb ban_1..ban_nb nf filter_1..filter_nf.
+// The barcode function is called FIRST; only afterwards is the de Bruijn sequence of that order
+// fetched (so that a memoised sequence inside poly cannot have been primed by the harness), and
+// only after that, for a call without bans and filters, the other entry point, whose agreement is
+// reported in a field of its own ("=" / "differs"): a difference is a correspondence difference,
+// not a failing input of the property.
+// Reply: sequence of order n, number of barcodes, barcodes joined by ",", entry-point flag.
+func c17Barcodes(a []string) []string {
+	length, n, nb := c17Atoi(a[0]), c17Atoi(a[1]), c17Atoi(a[2])
+	bans := []string{}
+	for i := 0; i < nb; i++ {
+		bans = append(bans, a[3+i])
+	}
+	nf := c17Atoi(a[3+nb])
+	filters := []func(string) bool{}
+	for i := 0; i < nf; i++ {
+		filters = append(filters, c17Filter(a[4+nb+i]))
+	}
+	var out []string
+	if nb == 0 && nf == 0 {
+		out = primers.CreateBarcodes(length, n)
+	} else {
+		out = primers.CreateBarcodesWithBannedSequences(length, n, bans, filters)
+	}
+	res := []string{"", strconv.Itoa(len(out)), strings.Join(out, ","), "="}
+	res[0] = primers.NucleobaseDeBruijnSequence(n)
+	if nb == 0 && nf == 0 {
+		alt := primers.CreateBarcodesWithBannedSequences(length, n, bans, filters)
+		if strings.Join(alt, ",") != res[2] || len(alt) != len(out) {
+			res[3] = "differs"
+		}
+	}
+	return res
+}
+
 func init() {
 	// debruijn n  ->  the sequence
 	runner.Register("debruijn", func(a []string) ([]string, error) {
 		return []string{primers.NucleobaseDeBruijnSequence(c17Atoi(a[0]))}, nil
 	})
 	// barcodes length n nb ban_1..ban_nb nf filter_1..filter_nf
-	//   ->  the de Bruijn sequence of order n, the number of barcodes, the barcodes joined by ","
-	// With nb = nf = 0 the call goes through CreateBarcodes.
 	runner.Register("barcodes", func(a []string) ([]string, error) {
-		length, n, nb := c17Atoi(a[0]), c17Atoi(a[1]), c17Atoi(a[2])
-		bans := []string{}
-		for i := 0; i < nb; i++ {
-			bans = append(bans, a[3+i])
+		return c17Barcodes(a), nil
+	})
+	// barcodeshist m k_1 <k_1 fields of a barcodes request> ... k_m <k_m fields>
+	//   a history of m barcode calls in this one process, in order; reply = the m replies concatenated
+	runner.Register("barcodeshist", func(a []string) ([]string, error) {
+		m := c17Atoi(a[0])
+		pos := 1
+		var res []string
+		for i := 0; i < m; i++ {
+			k := c17Atoi(a[pos])
+			res = append(res, c17Barcodes(a[pos+1:pos+1+k])...)
+			pos += 1 + k
 		}
-		nf := c17Atoi(a[3+nb])
-		filters := []func(string) bool{}
-		for i := 0; i < nf; i++ {
-			filters = append(filters, c17Filter(a[4+nb+i]))
-		}
-		db := primers.NucleobaseDeBruijnSequence(n)
-		var out []string
-		if nb == 0 && nf == 0 {
-			out = primers.CreateBarcodes(length, n)
-			// the two entry points must agree
-			alt := primers.CreateBarcodesWithBannedSequences(length, n, bans, filters)
-			if strings.Join(alt, ",") != strings.Join(out, ",") || len(alt) != len(out) {
-				return []string{db, "-1", "CreateBarcodes differs from CreateBarcodesWithBannedSequences"}, nil
-			}
-		} else {
-			out = primers.CreateBarcodesWithBannedSequences(length, n, bans, filters)
-		}
-		return []string{db, strconv.Itoa(len(out)), strings.Join(out, ",")}, nil
+		return res, nil
 	})
 }
